@@ -309,6 +309,13 @@ def run_impl(case):
     else:
         a, b = fl(case["aff"][0]), fl(case["aff"][1])
     out["affine"] = call(a * theta + b, a * hat + b, alpha)
+    if case.get("dtype") != "int":
+        # history: one preallocated buffer analysed, refilled in place with the affine image, analysed again
+        buf = np.array(theta, dtype=float, copy=True)
+        call(buf, hat.copy(), alpha)
+        buf *= a
+        buf += b
+        out["affine_inplace"] = call(buf, a * hat + b, alpha)
     # larger alpha
     if case.get("alpha2") is not None:
         out["alpha2"] = call(theta.copy(), hat.copy(), fl(case["alpha2"]))
@@ -587,6 +594,9 @@ def oracle(case, res):
                         fails.append((kind, f"{name}: component {j}, alpha {als[k]}, limit {t}: {lim(oc, j, k, t)!r}, expected {want!r}"))
                         return
 
+    if r.get("affine_inplace") is not None and r.get("affine") is not None and r["affine_inplace"] != r["affine"]:
+        fails.append(("C13/history/refilled-buffer", "the interval of a buffer that was analysed before and then refilled in place differs "
+                                                     "from the interval of a fresh array with the same contents"))
     compare("replicates reordered", "C13/permutation", r.get("perm"))
     compare("all-NaN replicates inserted", "C13/nan-invariance", r.get("nanpad"))
     if case.get("aff") is not None:
